@@ -1924,6 +1924,13 @@ void move_object (object_t * item, object_t * dest) {
 
 #define MAX_VERB_BUFF 100
 
+/* Sits on the value stack under the arguments of a verb function. When an error in the
+ * verb function unwinds the stack, no command is being executed any more: last_verb
+ * must not keep pointing into the stack frame of user_parser(). */
+static void user_parser_error_handler (void) {
+  last_verb = 0;
+}
+
 int user_parser (char *buff) {
   char verb_buff[MAX_VERB_BUFF];
   sentence_t *s;
@@ -2007,6 +2014,10 @@ int user_parser (char *buff) {
             continue;
         }
 
+      STACK_CHECK (1);
+      (++sp)->type = T_ERROR_HANDLER;
+      sp->u.error_handler = user_parser_error_handler;
+
       if (s->flags & V_NOSPACE)
         {
           size_t l1 = strlen (s->verb);
@@ -2064,6 +2075,7 @@ int user_parser (char *buff) {
 
       /* s may be dangling at this point */
 
+      sp--;			/* error handler */
       command_giver = save_command_giver;
 
       /* the command giver destructed itself in its verb function: destruct_object()
